@@ -65,12 +65,41 @@ def procs():
     return max(1, min(16, idle))
 
 
+class CoqBatch(object):
+    ''' Collects model evaluations of all suites and runs them in one sharded coq_eval (every coqc start
+    costs seconds; three separate rounds would pay it three times). '''
+
+    def __init__(self):
+        self.terms = []
+        self.prelude = []
+        self.results = None
+
+    def add(self, term):
+        self.terms.append(term)
+        return len(self.terms) - 1
+
+    def define(self, name, term):
+        self.prelude.append('Definition %s := %s.' % (name, term))
+
+    def run(self, chk, name='model'):
+        nshard = procs()
+        self.results = chk.coq_eval(name, ['Lib.Cbor', 'Model.BpSec'], self.terms, '(fun x => x)',
+                                    prelude='\n'.join(self.prelude), chunk=max(20, (len(self.terms) + nshard - 1) // nshard))
+
+    def get(self, idx):
+        return self.results[idx]
+
+
 class Suite(object):
 
-    def __init__(self, chk):
+    def __init__(self, chk, sec_type=None, pending_list=None, oracle=None, classify=None):
         self.chk = chk
         self.pending = {}
         self.stats = {}
+        self.sec_type = sec_type if sec_type is not None else SEC_TYPE
+        self.pending_list = pending_list if pending_list is not None else PENDING_FINDINGS
+        self.oracle = oracle
+        self.classify = classify or (lambda ent, alt: sd.diff_covered(ent['wire'], alt, self.sec_type))
 
     def count(self, key, sub):
         self.chk.count(key, sub)
@@ -78,7 +107,7 @@ class Suite(object):
     def fail(self, signature, what, replay_obj):
         ''' Gate: pending findings are recorded (evidence + stdout note) but do not fail the run unless they
         are in known_findings.json (then Check.fail reports KNOWN-FINDING). '''
-        if signature in PENDING_FINDINGS and self.chk.known_match(signature) is None:
+        if signature in self.pending_list and self.chk.known_match(signature) is None:
             if signature not in self.pending:
                 self.pending[signature] = dict(what=what, replay=replay_obj, count=0)
             self.pending[signature]['count'] += 1
@@ -186,34 +215,37 @@ def aad_cases(rng, count):
     return cases
 
 
-def suite_aad(chk, node, quick):
-    cases = aad_cases(chk.rng, 150 if quick else 1500)
-    terms = []
+def suite_aad(chk, node, quick, batch, count=None):
+    ''' :return: finish() to call after batch.run '''
+    cases = aad_cases(chk.rng, count or (150 if quick else 1500))
+    idxs = []
     impl = []
     for case in cases:
         wire = bpdrive.encode_bundle(case['spec'])
         impl.append(node.external_aad(wire, case['sec_hdr'], case['source'], case['scope'], case['addl'], case['target'], case['sec_btsd']))
-        terms.append('(%s, mkCB %d %d %d 0 %s, %s, %s, %s, %d)' % (
+        idxs.append(batch.add('(direct_aad %s (mkCB %d %d %d 0 %s) %s %s %s %d)' % (
             sd.coq_octets(wire), case['sec_hdr'][0], case['sec_hdr'][1], case['sec_hdr'][2], sd.coq_octets(case['sec_btsd']),
             sd.coq_cbor(bpdrive.eid_to_cbor(case['source'])), sd.coq_scope(case['scope']), sd.coq_octets(case['addl']),
-            case['target']))
-    func = '(fun c => match c with (w, sec, src, sc, ad, t) => direct_aad w sec src sc ad t end)'
-    model = chk.coq_eval('aad', ['Lib.Cbor', 'Model.BpSec'], terms, func, chunk=max(12, (len(terms) + procs() - 1) // procs()))
-    bad = []
-    for (case, real, mod) in zip(cases, impl, model):
-        real_c = None if isinstance(real, str) else list(real)
-        mod_c = None if mod is None else list(mod[1])
-        nontrivial = real_c is not None and len(case['scope']) > 0
-        chk.case(ident=('aad', json.dumps(case, sort_keys=True, default=lambda b: b.hex())), nontrivial=nontrivial,
-                 sample=dict(suite='aad', scope={str(k): v for (k, v) in case['scope'].items()}, target=case['target'],
-                             sec_hdr=case['sec_hdr'], aad_hex=(bytes(real_c).hex() if real_c is not None else real)))
-        chk.count('aad_scope_size', len(case['scope']))
-        chk.count('aad_result', 'octets' if real_c is not None else real)
-        if real_c != mod_c:
-            bad.append(dict(case=case, real=(bytes(real_c).hex() if real_c is not None else real),
-                            model=(bytes(mod_c).hex() if mod_c is not None else None)))
-    chk.obligation('correspondence:aad', not bad, json.dumps(bad[:2], default=lambda b: b.hex())[:600])
-    return bad
+            case['target'])))
+
+    def finish():
+        bad = []
+        for (case, real, idx) in zip(cases, impl, idxs):
+            mod = batch.get(idx)
+            real_c = None if isinstance(real, str) else list(real)
+            mod_c = None if mod is None else list(mod[1])
+            nontrivial = real_c is not None and len(case['scope']) > 0
+            chk.case(ident=('aad', json.dumps(case, sort_keys=True, default=lambda b: b.hex())), nontrivial=nontrivial,
+                     sample=dict(suite='aad', scope={str(k): v for (k, v) in case['scope'].items()}, target=case['target'],
+                                 sec_hdr=case['sec_hdr'], aad_hex=(bytes(real_c).hex() if real_c is not None else real)))
+            chk.count('aad_scope_size', len(case['scope']))
+            chk.count('aad_result', 'octets' if real_c is not None else real)
+            if real_c != mod_c:
+                bad.append(dict(case=case, real=(bytes(real_c).hex() if real_c is not None else real),
+                                model=(bytes(mod_c).hex() if mod_c is not None else None)))
+        chk.obligation('correspondence:aad', not bad, json.dumps(bad[:2], default=lambda b: b.hex())[:600])
+        return bad
+    return finish
 
 
 # --------------------------------------------------------------------------- suite: structures vs real primitives
@@ -235,43 +267,46 @@ def verify_signature(pki_kind, data, sig):
         return False
 
 
-def suite_structure(chk, wires, node):
-    terms = [sd.coq_octets(ent['wire']) for ent in wires]
-    model = chk.coq_eval('inputs', ['Lib.Cbor', 'Model.BpSec'], terms, 'wire_inputs')
-    bad = []
-    for (ent, mod) in zip(wires, model):
-        prof = sd.PROFILES[ent['profile']]
-        okay = mod is not None
-        detail = 'model returned None'
-        if okay:
-            ops = [(num, bytes(inp), bytes(tag)) for (num, lst) in mod[1] for (inp, tag) in lst]
-            okay = len(ops) == len(ent['targets'])
-            for (tix, (num, inp, tag)) in enumerate(ops):
-                if prof['kind'] == 'mac0':
-                    (_kid, key, alg, _ops) = prof['key']
-                    good = sd.py_mac(alg, key, inp) == tag
-                else:
-                    good = verify_signature(prof['pki'], inp, tag)
-                # and the receiver's own AAD is inside that input
-                real_aad = node.receiver_aad(ent['wire'], num, tix)
-                good = good and isinstance(real_aad, bytes) and cbor2.dumps(real_aad) in inp
-                okay = okay and good
-            detail = 'tag over the model structure does not match'
-        chk.case(ident=('structure', ent['id']), nontrivial=True)
-        chk.count('structure_kind', prof['kind'])
-        if not okay:
-            bad.append(dict(id=ent['id'], detail=detail))
-    chk.obligation('correspondence:structure', not bad, json.dumps(bad[:3])[:500])
-    return bad
+def suite_structure(chk, wires, node, batch):
+    idxs = [batch.add('(wire_inputs %s)' % sd.coq_octets(ent['wire'])) for ent in wires]
+
+    def finish():
+        bad = []
+        for (ent, idx) in zip(wires, idxs):
+            mod = batch.get(idx)
+            prof = sd.PROFILES[ent['profile']]
+            okay = mod is not None
+            detail = 'model returned None'
+            if okay:
+                ops = [(num, bytes(inp), bytes(tag)) for (num, lst) in mod[1] for (inp, tag) in lst]
+                okay = len(ops) == len(ent['targets'])
+                for (tix, (num, inp, tag)) in enumerate(ops):
+                    if prof['kind'] == 'mac0':
+                        (_kid, key, alg, _ops) = prof['key']
+                        good = sd.py_mac(alg, key, inp) == tag
+                    else:
+                        good = verify_signature(prof['pki'], inp, tag)
+                    # and the receiver's own AAD is inside that input
+                    real_aad = node.receiver_aad(ent['wire'], num, tix)
+                    good = good and isinstance(real_aad, bytes) and cbor2.dumps(real_aad) in inp
+                    okay = okay and good
+                detail = 'tag over the model structure does not match'
+            chk.case(ident=('structure', ent['id']), nontrivial=True)
+            chk.count('structure_kind', prof['kind'])
+            if not okay:
+                bad.append(dict(id=ent['id'], detail=detail))
+        chk.obligation('correspondence:structure', not bad, json.dumps(bad[:3])[:500])
+        return bad
+    return finish
 
 
 # --------------------------------------------------------------------------- suite: alterations
 
-def alterations(ent, rng, quick):
+def alterations(ent, rng, quick, sec_type=SEC_TYPE):
     ''' every single-field alteration + (sample of) single-bit flips of one wire bundle '''
     wire = ent['wire']
     out = []
-    for (label, alt) in sd.field_alterations(wire, SEC_TYPE, rng):
+    for (label, alt) in sd.field_alterations(wire, sec_type, rng):
         out.append(dict(kind='field', label=label, alt=alt))
     if quick:
         per_field = 1 if len(wire) > 400 else 2
@@ -290,7 +325,7 @@ def alterations(ent, rng, quick):
     return out
 
 
-def eid_only(orig, alt):
+def eid_only(orig, alt, sec_type=SEC_TYPE):
     ''' the two bundles differ only in the text of dtn EIDs (primary block EIDs / security source), CRC values aside '''
     try:
         io = [it for (it, _r, _o) in sd.split_bundle(orig)]
@@ -313,7 +348,7 @@ def eid_only(orig, alt):
         so = strip(io)
         sa = strip(ia)
         for (bo, ba) in zip(io[1:], ia[1:]):
-            if bo[0] == SEC_TYPE and ba[0] == SEC_TYPE:
+            if bo[0] == sec_type and ba[0] == sec_type:
                 ao = sd.asb_decode(bo[4])
                 aa = sd.asb_decode(ba[4])
                 if ao['source'][0] == 1 and aa['source'][0] == 1 and isinstance(aa['source'][1], str):
@@ -399,35 +434,32 @@ def expected_direct(verdict, bib, error):
         return error is not None or any(val is not None for val in bib)
     if verdict == 3:
         return error is not None or bib == []
-    if verdict == 5:
-        return error is not None or bib == [] or any(val is not None for val in bib)
-    return True      # 2: key resolution decides; 4: the model does not parse the octets
+    return True      # 2: key resolution decides; 4: the model does not parse the octets; 5: a block of type 11/12
+    #                  whose BTSD is not an ASB: the real code ignores that block (C12) and judges the others
 
 
-def suite_alterations(suite, wires, quick):
+def suite_alterations(suite, wires, quick, batch):
     chk = suite.chk
     nproc = procs()
-    verdict_terms = []
+    verdict_idx = []
     verdict_meta = []
-    disagree = []
-    prelude = []
     for (widx, ent) in enumerate(wires):
-        prelude.append('Definition orig%d := %s.' % (widx, sd.coq_octets(ent['wire'])))
-        cases = alterations(ent, chk.rng, quick)
-        classes = [sd.diff_covered(ent['wire'], case['alt'], SEC_TYPE) for case in cases]
+        batch.define('orig%d' % widx, sd.coq_octets(ent['wire']))
+        cases = alterations(ent, chk.rng, quick, suite.sec_type)
+        classes = [suite.classify(ent, case['alt']) for case in cases]
         trace('%s: %d alterations classified' % (ent['id'], len(cases)))
-        outs = sd.sweep(dict(profile=ent['profile']), [case['alt'] for case in cases], procs=nproc)
+        outs = sd.sweep(dict(profile=ent['profile'], extra=ent.get('extra')), [case['alt'] for case in cases], procs=nproc)
         trace('%s: swept' % ent['id'])
         budget = 45 if quick else 2000
         for (cidx, (case, cls, out)) in enumerate(zip(cases, classes, outs)):
             replay = dict(wire_hex=ent['wire'].hex(), alt_hex=case['alt'].hex(), profile=ent['profile'], label=case['label'],
-                          payload_hex=ent['payload'].hex(), wire_id=ent['id'])
+                          payload_hex=ent['payload'].hex(), wire_id=ent['id'], extra=ent.get('extra'), targets=ent.get('targets'))
             case['stale'] = case['label'].endswith(':stale-crc')
-            oracle(suite, ent, case, cls, out, replay)
+            (suite.oracle or oracle)(suite, ent, case, cls, out, replay)
             nontrivial = cls[0] in ('must_fail', 'must_pass', 'either')
             chk.case(ident=('alt', ent['id'], case['alt'].hex()), nontrivial=nontrivial,
                      sample=dict(suite='alteration', wire=ent['id'], label=case['label'], cls=cls[0], detail=cls[1],
-                                 delivered=out['delivered'], sec_failure=out['sec_failure'], verify_bib=out['direct']['bib']))
+                                 delivered=out['delivered'], sec_failure=out['sec_failure'], verify=out['direct']['bcb'] + out['direct']['bib']))
             suite.count('alteration_kind', case['kind'])
             suite.count('class', cls[0])
             suite.count('profile', ent['profile'])
@@ -435,36 +467,40 @@ def suite_alterations(suite, wires, quick):
             want = (case['kind'] == 'field' and len(ent['wire']) < 400 and (not quick or cidx % 2 == 0)) or cidx % 5 == 0
             if want and budget > 0 and len(ent['wire']) < 1500:
                 budget -= 1
-                verdict_terms.append('(orig%d, %s)' % (widx, sd.coq_octets(case['alt'])))
+                verdict_idx.append(batch.add('(verdict orig%d %s)' % (widx, sd.coq_octets(case['alt']))))
                 verdict_meta.append((ent, case, cls, out))
-    trace('%d verdict terms' % len(verdict_terms))
-    if verdict_terms:
-        model = chk.coq_eval('verdict', ['Lib.Cbor', 'Model.BpSec'], verdict_terms, '(fun p => verdict (fst p) (snd p))',
-                             prelude='\n'.join(prelude), chunk=max(40, (len(verdict_terms) + procs() - 1) // procs()))
-        for ((ent, case, cls, out), verdict) in zip(verdict_meta, model):
+    trace('%d verdict terms' % len(verdict_idx))
+    suite.stats['verdict_cases'] = len(verdict_idx)
+    suite.stats['sweep_procs'] = nproc
+
+    def finish():
+        disagree = []
+        for ((ent, case, cls, out), idx) in zip(verdict_meta, verdict_idx):
+            verdict = batch.get(idx)
             suite.count('model_verdict', verdict)
             direct = out['direct']
             if cls[0] in ('malformed', 'asb_malformed'):
                 suite.count('verdict_outside_model_domain', cls[0])
                 continue
+            if verdict == 6 and ent.get('extra'):
+                continue      # targets cut from one block, the other block's operation then decides
             if not expected_direct(verdict, direct['bcb'] + direct['bib'], direct['error']):
-                disagree.append(dict(wire=ent['id'], label=case['label'], verdict=verdict, verify_bib=direct['bib'],
+                disagree.append(dict(wire=ent['id'], label=case['label'], verdict=verdict, verify=direct['bcb'] + direct['bib'],
                                      error=direct['error'], cls=cls[0], alt_hex=case['alt'].hex(), wire_hex=ent['wire'].hex()))
             # the model and the property text must agree on what is covered, except where the model
             # reproduces a defect of the code (EID normalisation -> pending finding above)
-            if verdict == 1 and cls[0] == 'must_fail' and not eid_only(ent['wire'], case['alt']):
+            if verdict == 1 and cls[0] == 'must_fail' and not eid_only(ent['wire'], case['alt'], suite.sec_type):
                 disagree.append(dict(wire=ent['id'], label=case['label'], verdict=verdict, cls=cls, note='model says unchanged, property text says covered content differs',
                                      alt_hex=case['alt'].hex(), wire_hex=ent['wire'].hex()))
             if verdict == 0 and cls[0] == 'must_pass':
                 disagree.append(dict(wire=ent['id'], label=case['label'], verdict=verdict, cls=cls, note='model says altered, property text says nothing covered changed',
                                      alt_hex=case['alt'].hex(), wire_hex=ent['wire'].hex()))
-    if disagree:
-        with open(os.path.join(os.path.dirname(CORPUS), '..', 'build', 'C03_verdict_disagreements.json'), 'w') as out:
-            json.dump(disagree, out, indent=1)
-    chk.obligation('correspondence:verdict', not disagree, json.dumps(disagree[:2])[:900])
-    suite.stats['verdict_cases'] = len(verdict_terms)
-    suite.stats['sweep_procs'] = nproc
-    return disagree
+        if disagree:
+            with open(os.path.join(os.path.dirname(CORPUS), '..', 'build', '%s_verdict_disagreements.json' % chk.prop_id), 'w') as out:
+                json.dump(disagree, out, indent=1)
+        chk.obligation('correspondence:verdict', not disagree, json.dumps(disagree[:2])[:900])
+        return disagree
+    return finish
 
 
 # --------------------------------------------------------------------------- suite: unaltered, wrong key, COSE_Mac
@@ -610,19 +646,21 @@ def main():
     trace('coq_props done')
     suite_corpus(suite)
     node = sd.SecNode(sd.DST_ID)
-    only = os.environ.get('VERIF_ONLY')      # debugging aid: run one suite
-    if only in (None, 'aad'):
-        suite_aad(chk, node, quick)
-    trace('aad done')
+    batch = CoqBatch()
+    fin_aad = suite_aad(chk, node, quick, batch)
+    trace('aad prepared')
     wires = make_wires(chk, quick)
-    if only in (None, 'structure'):
-        suite_structure(chk, [ent for ent in wires if ent['source'] == 'agent'], node)
-    trace('structure done')
+    fin_structure = suite_structure(chk, [ent for ent in wires if ent['source'] == 'agent'], node, batch)
     suite_baseline(suite, wires)
     suite_mac_kw(suite)
     trace('baseline done')
-    suite_alterations(suite, wires, quick)
-    trace('alterations done')
+    fin_alt = suite_alterations(suite, wires, quick, batch)
+    trace('sweeps done; %d model evaluations' % len(batch.terms))
+    batch.run(chk)
+    trace('model evaluated')
+    fin_aad()
+    fin_structure()
+    fin_alt()
     for (sig, info) in sorted(suite.pending.items()):
         print('PENDING-FINDING (gated, reported to the coordinator): %s  [%d input(s); first: %s]' % (sig, info['count'], info['what'][:300]))
     chk.finish(
